@@ -23,8 +23,17 @@ namespace GState
 /-- `get_version` -/
 def ver (s : GState) (n : Name) : Nat := (AL.get? s.versions n).getD 0
 
-/-- does `update_value` advance the version?  new name, emit sentinel (always fresh), or changed value -/
+/-- does `update_value` advance the version?  new name, emit sentinel (always fresh), or changed
+value.  "Changed" is Python's `old != new`, i.e. the negation of `Val.pyEq` (NOT structural
+inequality: replacing `1` by `True` does not advance the version). -/
 def bumps (s : GState) (n : Name) (v : Val) : Bool :=
+  match AL.get? s.values n with
+  | .none => true
+  | some old => v == .sentinel || !(Val.pyEq old v)
+
+/-- the idealised test with structural inequality (what `bumps` was before `Val.pyEq`); kept for
+negative witnesses that contrast the two -/
+def bumpsStructural (s : GState) (n : Name) (v : Val) : Bool :=
   match AL.get? s.values n with
   | .none => true
   | some old => v == .sentinel || old != v
